@@ -204,6 +204,11 @@ func replay(raw json.RawMessage) (bool, string, error) {
 				msg += fmt.Sprintf("; class=%q reference authorised=%v %s; covered content unchanged=%v", class, ref.Authorised, ref.Why, same)
 				return class != "", msg, nil
 			}
+			if c.Class == "contract_justification" {
+				ref := reference(f, tx)
+				msg += fmt.Sprintf("; reference authorised=%v %s; the carried code's execution spends from %v", ref.Authorised, ref.Why, payerList(contractPayers(f, tx)))
+				return !ref.Authorised, msg, nil
+			}
 			// forged authorisations and panics: acceptance itself is the violation
 			return true, msg, nil
 		}
@@ -228,6 +233,8 @@ type job struct {
 	wire    []byte
 	fg      *forged
 	sp      *spendSpec
+	trp     *trPlan
+	tr      *trSpec
 }
 
 type baseStat struct {
@@ -409,6 +416,7 @@ type worker struct {
 	fx  map[string]*fixture
 	st  *stats
 	sp  *spendStats
+	tr  *trStats
 }
 
 func (w *worker) fixture(setup string) *fixture {
@@ -860,6 +868,50 @@ func run(tier core.Tier) *core.Report {
 	spends := enumSpends(ownersLay.kinds, spendKeys, spendStyles(deep), versions)
 	spendTotal := newSpendStats()
 
+	// ---- forged / altered / dropped contract-spend records -------------------
+	trTotal := newTrStats()
+	var trPlans []*trPlan
+	trBaseRejected := []string{}
+	{
+		trBases := []*baseTx{}
+		for _, b := range bases {
+			if len(b.Tx.ContractRequests) > 0 {
+				trBases = append(trBases, b)
+			}
+		}
+		f := fresh("owners")
+		extra, notes := transientBases(f, versions)
+		for _, n := range notes {
+			rep.Assume("setup " + n)
+		}
+		for _, b := range extra {
+			if ok, errS, _ := verifyTx(f, world.CloneTx(b.Tx)); !ok || errS != "" {
+				trBaseRejected = append(trBaseRejected, fmt.Sprintf("%s: (%v, %s)", b.Name, ok, errS))
+				continue
+			}
+			if rv := reference(f, b.Tx); !rv.Authorised {
+				harnessError("C07: the reference predicate refuses base transaction %s: %s", b.Name, rv.Why)
+			}
+			g := fresh("owners")
+			adm, why := submitTx(g, world.CloneTx(b.Tx))
+			g.drop()
+			if !adm {
+				trBaseRejected = append(trBaseRejected, fmt.Sprintf("%s: VerifyTx accepts, SubmitTx sequence refuses: %s", b.Name, why))
+				continue
+			}
+			trBases = append(trBases, b)
+		}
+		f.drop()
+		for _, b := range trBases {
+			rcp, err := getRecipe(b.Setup)
+			if err != nil {
+				harnessError("C07 setup %s: %v", b.Setup, err)
+			}
+			vs := victimsOf(b, rcp, deep)
+			trPlans = append(trPlans, &trPlan{base: b, victims: vs, specs: enumTransient(b, vs, deep), hasXfer: len(recordInputs(b.Tx)) > 0})
+		}
+	}
+
 	ch := make(chan job, 256)
 	var wg sync.WaitGroup
 	total := newStats()
@@ -869,12 +921,14 @@ func run(tier core.Tier) *core.Report {
 		wg.Add(1)
 		go func() {
 			defer wg.Done()
-			w := &worker{rep: rep, fx: map[string]*fixture{}, st: newStats(), sp: newSpendStats()}
+			w := &worker{rep: rep, fx: map[string]*fixture{}, st: newStats(), sp: newSpendStats(), tr: newTrStats()}
 			for j := range ch {
 				if rep.Expired() {
 					continue
 				}
-				if j.sp != nil {
+				if j.tr != nil {
+					w.doTransient(j.trp, j.tr)
+				} else if j.sp != nil {
 					w.doSpend(ownersLay, parts, j.sp)
 				} else if j.mut != nil {
 					w.doMutation(j.base, j.mut, j.variant, j.wire)
@@ -899,6 +953,7 @@ func run(tier core.Tier) *core.Report {
 			mu.Lock()
 			total.merge(w.st)
 			spendTotal.merge(w.sp)
+			trTotal.merge(w.tr)
 			reverified += rv
 			mu.Unlock()
 		}()
@@ -926,6 +981,14 @@ func run(tier core.Tier) *core.Report {
 			break
 		}
 		ch <- job{sp: &spends[i]}
+	}
+	for _, p := range trPlans {
+		for i := range p.specs {
+			if rep.Expired() {
+				break
+			}
+			ch <- job{trp: p, tr: &p.specs[i]}
+		}
 	}
 	close(ch)
 	wg.Wait()
@@ -1034,10 +1097,11 @@ func run(tier core.Tier) *core.Report {
 	exList = append(exList, "Txid -- left inconsistent it must be rejected (checked); recomputed it is the base transaction again",
 		"wire-identical mutants (nil vs empty) -- the same protobuf message, counted as identities")
 	judged := total.evaluated
-	rep.Set("evaluations", judged+spendTotal.attempts+digestTxs)
-	rep.Set("distinct_nontrivial", judged+spendTotal.attempts)
+	rep.Set("evaluations", judged+spendTotal.attempts+trTotal.Cases+digestTxs)
+	rep.Set("distinct_nontrivial", judged+spendTotal.attempts+trTotal.Cases)
 	rep.Set("rule", "cases = (accepted base transaction, single-field schema mutation | signature swap/removal/replay/re-sign | forged authorisation, txid left as is | recomputed), enumerated completely in schema order; a case is non-trivial (counted) when the mutant's protobuf wire form differs from the base's and from every earlier mutant of the same base; "+
 		"plus spend attempts = (owner kind of an unspent output created by a real transfer in the setup's history, version, initiator = each key of the alphabet | the owner's name itself, every subset of the key alphabet listed in AuthRequire and signing, entry style address | owner/key | owner/member-account/key | owner/never-created-account/key, per-signer | aggregated signature, no contract | carried contract write | the carried contract spends the output on the initiator's behalf), every tuple enumerated in index order, each a distinct correctly signed transaction (counted), accepted only if the reference predicate (harness-evaluated access-control rule; no evaluable rule entitles nobody) authorises it; "+
+		"plus contract-spend-record cases = (accepted contract-carrying transaction: the base forms that carry a $vkv request and, on the owner-kind setup, A's 'put k1 x' (the code transfers nothing) and 'xfer B 5' (the code transfers from the initiator), versions 1-3; form = control (foreign unspent output added as input, unclaimed) | claim (the ($transient, ContractUtxo.Inputs) record, created when absent, names the foreign output: appended / prepended / alone / with the outputs record extended too) | alter (entry e of the record: other output with or without the justified TxInput replaced, other owner, amount doubled, amount 1) | drop (inputs record, outputs record, both); foreign output = the first unspent output of every other owner in the setup's funding transactions (thorough: every such output, and claims of two owners' outputs at once)), every tuple enumerated in index order, re-signed by the base's own signers (counted: each a distinct validly signed transaction), accepted only if the reference predicate authorises it, where a record entry justifies an input only if the harness's own execution of the carried requests (Chain.PreExec on a fresh world of the setup) spends from that input's owner; "+
 		"the digest domain's transactions are counted in evaluations only")
 	{
 		var kinds []map[string]interface{}
@@ -1074,6 +1138,43 @@ func run(tier core.Tier) *core.Report {
 		rep.Set("spend_vacuous_owner_kinds", vacuous)
 		if complete := !rep.HitDeadline(); complete && (spendTotal.accepted-spendTotal.notEntitledAccepted == 0 || spendTotal.rejected == 0) {
 			harnessError("C07: the spend-attempt family is vacuous: accepted %d (not entitled %d), rejected %d", spendTotal.accepted, spendTotal.notEntitledAccepted, spendTotal.rejected)
+		}
+	}
+	{
+		var tb []map[string]interface{}
+		withRec, withoutRec, victimsTotal := 0, 0, 0
+		for _, p := range trPlans {
+			var vn []string
+			for _, v := range p.victims {
+				vn = append(vn, v.Name)
+			}
+			tb = append(tb, map[string]interface{}{"base": p.base.Name, "carries_inputs_record": p.hasXfer, "foreign_outputs": vn, "cases_planned": len(p.specs)})
+			victimsTotal += len(p.victims)
+			if p.hasXfer {
+				withRec++
+			} else {
+				withoutRec++
+			}
+		}
+		var forms []string
+		for _, fm := range trForms {
+			forms = append(forms, fm.Form+" ["+fm.Class+"] -- "+fm.What)
+		}
+		rep.Set("contract_record_bases", tb)
+		rep.Set("contract_record_bases_with_record", withRec)
+		rep.Set("contract_record_bases_without_record", withoutRec)
+		rep.Set("contract_record_bases_dropped", trBaseRejected)
+		rep.Set("contract_record_forms", forms)
+		rep.Set("contract_record", trTotal)
+		if complete := !rep.HitDeadline(); complete {
+			switch {
+			case withRec == 0 || withoutRec == 0:
+				harnessError("C07: the contract-record family is vacuous: bases with a record %d, without %d (dropped: %v)", withRec, withoutRec, trBaseRejected)
+			case victimsTotal == 0 || trTotal.ByClass["claim"] == 0 || trTotal.ByClass["alter"] == 0 || trTotal.ByClass["drop"] == 0 || trTotal.ByClass["control"] == 0:
+				harnessError("C07: the contract-record family is vacuous: cases by class %v", trTotal.ByClass)
+			case trTotal.RejectedByForm["control_unclaimed"] == 0 || trTotal.RefUnauthorised == 0:
+				harnessError("C07: the contract-record family is vacuous: no unclaimed foreign input was refused / the reference predicate refuses nothing")
+			}
 		}
 	}
 	rep.Set("base_transactions", baseNames)
@@ -1125,6 +1226,7 @@ func run(tier core.Tier) *core.Report {
 	rep.Assume("block-path acceptance (verifyDAGTxs) is out of scope here (observed by C13)")
 	rep.Assume("aggregated-signature base forms are created offline with the crypto client's multi-signature step API (nonces derived from key and message); account forms use an account created by the real $acl NewAccount method and confirmed in block 1; the 'marked' setup marks a confirmed transaction through Ledger.UpdateBlockChainData, which no other xupercore code calls")
 	rep.Assume("setup 'owners': accounts are created by the real $acl NewAccount method; the records $acl refuses to store (no permission model, rule NULL / unimplemented / unknown, unparsable) are written into the account bucket by the harness kernel contract $vkv and stand for a record left by other code; every owner kind is paid by a real transfer confirmed in block 1; a zero-threshold rule entitles everybody (the rule's own arithmetic), observed, not judged")
+	rep.Assume("contract-justified spends: the carried contract is the harness kernel contract $vkv, whose 'xfer' transfers from the initiator as the bridge Transfer call does; what the carried code spends is taken from the node's own pre-execution (Chain.PreExec) of the carried requests on a fresh world of the same setup")
 	rep.Assume("no exemption was needed for $transient TxOutputsExt entries: they are covered by the digest, their mutants are rejected")
 	return rep
 }
